@@ -50,19 +50,37 @@ TASKS = {
     3: ("p :- q. r :- s. t :- u.", "p :- q, q. r :- s, s. t :- u, u."),
 }
 
-def one_run(anthem, base, k, n, outcomes, prefix, decomposition):
+# an external-equivalence task with a proof outline in which an inductive lemma (two obligations) is
+# followed by further lemmas: the only kind of task whose problem names carry two indices
+EXT_TASK = {
+    "a.lp": "out(X) :- in(X), X >= 0.\n",
+    "b.lp": "out(X) :- in(X), X > -1.\n",
+    "u.ug": "input: in/1. output: out/1.\n",
+    "o.po": "inductive-lemma(forward)[il]: forall N$i (N$i >= 0 -> (in(N$i) -> out(N$i))).\n"
+            "lemma(forward)[l1]: forall X (out(X) -> in(X)).\n"
+            "inductive-lemma(backward)[ib]: forall N$i (N$i >= 0 -> (in(N$i) -> out(N$i))).\n"
+            "lemma(backward)[l2]: forall X (out(X) -> in(X)).\n",
+}
+
+def one_run(anthem, base, k, n, outcomes, prefix, decomposition, ext=False):
     """Runs anthem once following the choice prefix (then always choice 0). Returns
     (observation dict, list of numbers of enabled choices at each release point)."""
     d = scratch("c10_")
     try:
-        left, right = TASKS[k]
-        open(f"{d}/a.lp", "w").write(left + "\n"); open(f"{d}/b.lp", "w").write(right + "\n")
+        if ext:
+            for fn, txt in EXT_TASK.items(): open(f"{d}/{fn}", "w").write(txt)
+        else:
+            left, right = TASKS[k]
+            open(f"{d}/a.lp", "w").write(left + "\n"); open(f"{d}/b.lp", "w").write(right + "\n")
         os.mkdir(f"{d}/out"); os.mkdir(f"{d}/bin"); os.mkdir(f"{d}/ctl")
         sp = f"{d}/bin/vampire"
         open(sp, "w").write(STANDIN); os.chmod(sp, 0o755)
         env = dict(os.environ, PATH=f"{d}/bin:/usr/bin:/bin", C10_DIR=f"{d}/ctl")
         args = [anthem, "verify", "--equivalence", "strong", "--direction", "forward", "--decomposition", decomposition,
                 "--no-timing", "-n", str(n), "--save-problems", f"{d}/out", f"{d}/a.lp", f"{d}/b.lp"]
+        if ext:
+            args = [anthem, "verify", "--equivalence", "external", "--decomposition", decomposition, "--no-timing", "-n", str(n),
+                    "--save-problems", f"{d}/out", f"{d}/a.lp", f"{d}/b.lp", f"{d}/u.ug", f"{d}/o.po"]
         proc = subprocess.Popen(args, env=env, stdout=subprocess.PIPE, stderr=subprocess.PIPE)
         released = {}      # id -> problem name
         choices = []
@@ -85,11 +103,11 @@ def one_run(anthem, base, k, n, outcomes, prefix, decomposition):
                 # the property does not bound how many provers run at once; an implementation that starts
                 # more than the requested n parks more of them. Let the set settle so that the choice
                 # points do not depend on timing, and explore over whatever is parked.
-                t_set = time.time() + 0.08
+                t_set = time.time() + 0.04
                 while time.time() < t_set:
                     now = sorted(int(p.rsplit(".", 1)[1]) for p in glob.glob(f"{d}/ctl/arrived.*") if int(p.rsplit(".", 1)[1]) not in released)
                     if len(now) > len(parked):
-                        parked = now; t_set = time.time() + 0.08
+                        parked = now; t_set = time.time() + 0.04
                     time.sleep(0.004)
             if files is None:
                 files = {os.path.basename(p)[:-2]: open(p, "rb").read() for p in sorted(glob.glob(f"{d}/out/*.p"))}
@@ -141,7 +159,8 @@ def one_run(anthem, base, k, n, outcomes, prefix, decomposition):
         assert late <= len(extra)
         obs = {"stdout": so.decode(errors="replace"), "stderr": se.decode(errors="replace")[-400:], "exit": proc.returncode, "hang": hang,
                "handed": sorted(nm for nm, _ in released.values()), "files": sorted(files.keys()),
-               "byte_identical": all(files.get(nm) == data for nm, data in released.values()), "extra_provers": len(extra)}
+               "byte_identical": all(files.get(nm) == data for nm, data in released.values()), "extra_provers": len(extra),
+               "prover_runs": len(released)}
         return obs, choices
     finally:
         # release anything still parked so no stray process lingers
@@ -225,6 +244,60 @@ def explore(run, anthem, k, n, outcome_names, decomposition, pool):
                     run.sample({"unreproducible_observation": key, "k": k, "instances": n, "outcomes": list(outcomes), "schedule_choices": prefix})
             run.count(f"runs_k{k}_n{n}")
 
+def outline_task(run, anthem, tier, pool):
+    """The external task with a proof outline: first discover the number of prover runs, then every
+    single-failure assignment x every release order with at most D deviations from the default order
+    (D = 1 quick, 2 thorough) for n in {1, 2}. Deviation-bounded, because k is about 9 here."""
+    obs, _ = one_run(anthem, None, 99, 1, ["Theorem"] * 99, [], "sequential", ext=True)
+    if "machinery" in obs:
+        run.machinery.append("outline task: " + obs["machinery"]); return
+    k = obs["prover_runs"]
+    run.extra["outline_task_prover_runs"] = k
+    run.states += 1; run.transitions += 1
+    if k < 5:
+        run.machinery.append(f"outline task: only {k} prover runs observed (expected an outline with two inductive lemmas and two lemmas)"); return
+    if len(obs["files"]) != k or sorted(set(obs["handed"])) != sorted(obs["handed"]) or obs["handed"] != obs["files"] or not obs["byte_identical"]:
+        run.violation("outline_problems_not_distinct_or_not_saved", {"what": "every problem must be handed over under a distinct name and byte-identical to its saved file",
+                      "prover_runs": k, "saved_files": obs["files"], "handed": obs["handed"], "byte_identical": obs["byte_identical"]})
+        return
+    D = 1 if tier == "quick" else 2
+    run.extra["outline_task_deviation_bound"] = D
+    assignments = [tuple(["Theorem"] * k)] + [tuple("Timeout" if j == i else "Theorem" for j in range(k)) for i in range(k)]
+    def task(job):
+        n, outcomes = job
+        results = []
+        stack = [[]]
+        while stack:
+            if STOP["set"]: break
+            prefix = stack.pop()
+            o, choices = one_run(anthem, None, k, n, list(outcomes), prefix, "sequential", ext=True)
+            results.append((prefix, o, choices))
+            used = sum(1 for c in prefix if c != 0)
+            if used >= D: continue
+            for i in range(len(prefix), len(choices)):
+                for alt in range(1, choices[i]):
+                    p = list(prefix) + [0] * (i - len(prefix))
+                    stack.append(p[:i] + [alt])
+        return job, results
+    jobs = [(n, a) for n in (1, 2) for a in assignments]
+    for (n, outcomes), results in pool.map(task, jobs):
+        for prefix, o, choices in results:
+            run.states += 1; run.transitions += max(1, len(choices))
+            run.count("runs_outline_task")
+            run.observe(("outline", tuple(x == "Theorem" for x in outcomes), "Success" if "> Success!" in o.get("stdout", "") else "Failure", tuple(choices)))
+            for key, desc in judge(o, k, list(outcomes)):
+                if key == "MACHINERY":
+                    run.machinery.append(desc); continue
+                again = [judge(one_run(anthem, None, k, n, list(outcomes), prefix, "sequential", ext=True)[0], k, list(outcomes)) for _ in range(2)]
+                if all(any(k2 == key for k2, _ in a) for a in again):
+                    STOP["confirmed"] += 1
+                    run.violation(key + "|outline_task", {"task": "external equivalence with proof outline", "k": k, "instances": n, "outcomes": list(outcomes), "schedule_choices": prefix, "what": desc,
+                                                          "stdout_tail": o.get("stdout", "")[-500:]})
+                    if STOP["confirmed"] >= 12 and not STOP["set"]:
+                        STOP["set"] = True; run.exhaustive = False
+                else:
+                    run.count("unreproducible_observations")
+
 def missing_executable(run, anthem):
     d = scratch("c10m_")
     try:
@@ -306,7 +379,7 @@ def main():
     run.rule = ("LAYER 2: real `anthem verify --equivalence strong` with a parking stand-in prover: for k problems (1-2 quick, 1-3 thorough), prover instances n, "
                 "EVERY assignment of outcomes from the alphabet to the problems and EVERY order in which parked provers are released (DFS over release choices); "
                 "oracle: Success iff all Theorem, exit 0, every problem handed over exactly once and byte-identical to its --save-problems file, one result block per problem; "
-                "plus the configuration without any vampire executable. LAYER 1: loom explores all interleavings (bounded preemptions) of the repository's own text of Prover::prove_all (build-time instrumented copy, loom port of threadpool 1.8.1, mpsc shim) with 2-3 workers and 2-3 problems of which one fails; oracle: iterator terminates, one result per problem, prove called once per problem, failures stay failures. non-trivial = distinct (outcome pattern, verdict, choice profile) and distinct completion orders")
+                "plus an external-equivalence task with a proof outline (two inductive lemmas, two lemmas; every single-failure assignment x every release order with at most 1 (thorough 2) deviations from the default order, n in {1,2}; every problem under a distinct name and saved byte-identically), plus the configuration without any vampire executable. LAYER 1: loom explores all interleavings (bounded preemptions) of the repository's own text of Prover::prove_all (build-time instrumented copy, loom port of threadpool 1.8.1, mpsc shim) with 2-3 workers and 2-3 problems of which one fails; oracle: iterator terminates, one result per problem, prove called once per problem, failures stay failures. non-trivial = distinct (outcome pattern, verdict, choice profile) and distinct completion orders")
     run.assumptions.append("loom layer: the mpsc shim is validated against std::sync::mpsc on every operation sequence up to the stated length; completion orders of 200 free-running runs of the real implementation must be among those loom produced")
     run.assumptions.append("outcomes the statement leaves open (Theorem together with a failing exit status or inside non-UTF8 noise) are not in the alphabet")
     run.assumptions.append("a schedule is the sequence of released problem names; each violating schedule is replayed twice and must reproduce")
@@ -321,6 +394,8 @@ def main():
     for k, n, oc, dec in plan:
         if not STOP["set"]:
             explore(run, anthem, k, n, oc, dec, pool)
+    if not STOP["set"]:
+        outline_task(run, anthem, tier, pool)
     missing_executable(run, anthem)
     if not STOP["set"]:
         loom_layer(run, tier)
